@@ -1,0 +1,40 @@
+//go:build verif
+
+// Contracts for package http (HTTP scenario ammo decoding), checked by /verif/govc. Comment-only: no code.
+package http
+
+// A scenario's step list in the written order: name(n) adds the request n times, name(n, ms) with a pause after each,
+// sleep(ms) adds to the pause of the step before it; unknown requests and a leading sleep are errors, never faults.
+// Which iterator a preprocessor draws [next] rows from is recorded in a ghost attribute.
+//@ global iterOf map[IteratorIniter]int
+//@ iface IteratorIniter.InitIterator
+//@ modifies iterOf[self]
+
+//@ func convertScenarioToAmmo
+//@ props C13 C15
+//@ nilsafe
+//@ loop 0 invariant [earlier-steps-parsed] imp(calls(config.ParseShootName) > 0, result_of(config.ParseShootName, 3) == nil)
+//@ loop 0 invariant result != nil && result.Name == sc.Name && len(result.Requests) >= 0 && forall(k, 0, len(result.Requests), result.Requests[k].Templater != nil)
+//@ loop 1 invariant result != nil && r.Templater != nil && forall(k, 0, len(result.Requests), result.Requests[k].Templater != nil)
+//@ loop 1 step [the-request-is-appended-once-per-repetition] len(result.Requests) == iter(len(result.Requests)) + 1 && result.Requests[len(result.Requests)-1] == r
+//@ at call convertConfigToRequest assert [the-request-of-that-name] arg(req) == reqs[result_of(config.ParseShootName, 0)] && has(reqs, result_of(config.ParseShootName, 0))
+//@ ensures [well-formed-steps] imp(result1 == nil, result0 != nil && result0.Name == sc.Name && forall(k, 0, len(result0.Requests), result0.Requests[k].Templater != nil))
+//@ ensures [bad-step-is-an-error] imp(calls(config.ParseShootName) > 0 && result_of(config.ParseShootName, 3) != nil, result1 != nil)
+
+//@ func convertConfigToRequest
+//@ props C13 C15
+//@ nilsafe
+//@ modifies iterOf
+//@ ensures [fields-as-configured] result.Method == req.Method && result.URI == req.URI && result.Name == req.Name && result.Tag == req.Tag && result.Body == req.Body && result.Headers == req.Headers && result.Preprocessor == req.Preprocessor && result.Postprocessors == req.Postprocessors
+//@ ensures [always-has-a-templater] result.Templater != nil && imp(req.Templater != nil, result.Templater == req.Templater)
+
+// Scenarios are listed weight/gcd times each, in the order of the description.
+//@ func decodeAmmo
+//@ props C13 C15
+//@ nilsafe
+//@ requires cfg != nil
+//@ loop 0 invariant reqRegistry != nil
+//@ loop 1 invariant scenarioRegistry != nil
+//@ loop 2 invariant forall(k, 0, len(result), result[k] != nil)
+//@ loop 3 invariant forall(k, 0, len(result), result[k] != nil) && a != nil
+//@ ensures [no-nil-scenario] imp(result1 == nil, forall(k, 0, len(result0), result0[k] != nil))
